@@ -323,5 +323,15 @@ func (r *Recorder) Finish(t *testing.T) {
 	}
 }
 
+// Current notes the case that is about to run in a side file, so that the
+// driver can attribute a process-fatal failure (runtime fatal error, os.Exit
+// inside the code under test) to it.
+func (r *Recorder) Current(desc string) {
+	if r.out == "" {
+		return
+	}
+	os.WriteFile(filepath.Join(r.out, fmt.Sprintf("current-%d.txt", r.shard)), []byte(desc), 0o644)
+}
+
 // Sprint helpers used in signatures and details.
 func F(format string, a ...interface{}) string { return fmt.Sprintf(format, a...) }
